@@ -10,4 +10,10 @@ CHECKS = {
   'note': COMMON_NOTE + 'Go map/string semantics are modelled, not verified.',
   'technique': 'Coq proof (model = inductive language spec, induction over histories) + differential correspondence model vs implementation',
  },
+ 'C09': {
+  'text': 'Full: for every byte string, c09_roundtrip proves that the model of WriteLogString, read as a JSON string body by the verified decoder `unescape`, decodes to the input with each invalid UTF-8 byte replaced by one U+FFFD (so no unescaped quote, dangling backslash or raw control byte can occur: the decoder rejects them); c09_no_raw_control and c09_output_is_utf8 give the byte-level clauses; c09_go_decoder_matches_table proves the transcription of utf8.DecodeRuneInString equal to Unicode Table 3-7. '
+          'The model is compared byte for byte with WriteLogString on exhaustive windows (all strings of length <=2, quick; <=3 and 4-byte boundary windows, thorough), byte sweeps at every position of plain texts and random mixes; thorough also sweeps all 2^32 four-byte strings against a Go-side oracle.',
+  'note': COMMON_NOTE + 'utf8.DecodeRuneInString and bytes.Buffer are modelled, not verified.',
+  'technique': 'Coq proof (round trip through a verified JSON-string decoder, UTF-8 table) + exhaustive-window differential correspondence',
+ },
 }
